@@ -66,11 +66,22 @@ Proof.
   rewrite E in E'. injection E' as <- <- <-. destruct (H13 Hr) as (k0 & Hk & H). injection Hk as <-. exact H.
 Qed.
 
+(* NO UNSYNCHRONISED TABLE ACCESS.  Under the discipline no two threads are ever inside accesses to
+   the transaction table at the same time -- for any number of writers and readers, every request
+   sequence and every interleaving (the model's rendering of "no data race on the table"). *)
+Theorem c04_generic_no_race sk reqs writers nr sched :
+  tx_safeb sk = true -> t_raced (trun sk reqs (tinit reqs writers nr) sched) = false.
+Proof. intros Hs. exact (no_race sk reqs Hs writers nr sched). Qed.
+
 (* THE CODE IN /repo satisfies the discipline (by computation on the regenerated skeletons; the
    table is touched nowhere else than in the functions the skeletons come from and in the
    constructor), hence the statement holds for it. *)
 Theorem c04_repo_discipline : tx_safeb repo_skel = true /\ repo_sites_ok = true.
 Proof. vm_compute. auto. Qed.
+
+Theorem c04_repo_no_race reqs writers nr sched :
+  t_raced (trun repo_skel reqs (tinit reqs writers nr) sched) = false.
+Proof. apply c04_generic_no_race. vm_compute. reflexivity. Qed.
 
 Theorem c04_repo reqs order sched :
   (forall k k', needs (rq reqs k) = true -> needs (rq reqs k') = true ->
@@ -112,6 +123,8 @@ Qed.
 
 Print Assumptions c04_generic.
 Print Assumptions c04_generic_in_flight.
+Print Assumptions c04_generic_no_race.
+Print Assumptions c04_repo_no_race.
 Print Assumptions c04_repo_discipline.
 Print Assumptions c04_repo.
 Print Assumptions c04_old_order_refuted.
